@@ -45,6 +45,18 @@ Theorem c09_routes_complete : forall w hs b dst rs,
   forall th tp, Targets w hs b dst th tp -> exists r, In r rs /\ r_host r = th /\ snd (r_dst r) = tp.
 Proof. exact send_routes_complete. Qed.
 
+(* The multicast-loop flag is consulted by multicast sends only: for every other
+   destination class (broadcast, a host address, a loopback address, anything
+   else) the routes depend on the sending host only through its address, so a
+   local socket gets its broadcast / same-host copy whatever that flag says. *)
+Theorem c09_mloop_only_multicast : forall w hs hs' b dst,
+  (forall g, fst dst <> Mcast g) -> h_id hs = h_id hs' ->
+  send_routes w hs b dst = send_routes w hs' b dst.
+Proof.
+  intros w hs hs' b [dip dport] Hn Hid. unfold send_routes. cbn [fst snd] in *. rewrite Hid.
+  destruct dip; try reflexivity. now destruct (Hn g).
+Qed.
+
 (* ---- delivery of one in-flight datagram ----------------------------------- *)
 
 (* Exactly one: if the addressed socket exists and admits the datagram (bind
@@ -241,10 +253,26 @@ Example c09_empty_datagram :
    ORecv 0 (HostIp 0, 9001) []; OErr 5; OReady true; ORecv 0 (Loop 1, 9001) []].
 Proof. vm_compute. reflexivity. Qed.
 
+(* Broadcast with the local receiver's multicast loop switched off: the local
+   socket still gets its copy (and the remote one too); the same send to the
+   multicast group skips the local socket. *)
+Example c09_broadcast_ignores_mloop :
+  snd (run (init 2 4) [Bind 0 9000 Unspec; Bind 1 9000 Unspec; Join 0 9000 1; Join 1 9000 1;
+                       SetBroadcast 0 9000 true; SetMloop 0 9000 false;
+                       Send 0 9000 (Bcast, 9000) [5]; Send 0 9000 (Mcast 1, 9000) [6];
+                       LoopFlush 0 2; TryRecv 0 9000 8; TryRecv 0 9000 8]) =
+  [OUnit; OUnit; OUnit; OUnit; OUnit; OUnit;
+   ORoutes SOk [{| r_via := Lo; r_host := 0; r_src := (HostIp 0, 9000); r_dst := (HostIp 0, 9000) |};
+                {| r_via := Net; r_host := 1; r_src := (HostIp 0, 9000); r_dst := (HostIp 1, 9000) |}];
+   ORoutes SOk [{| r_via := Net; r_host := 1; r_src := (HostIp 0, 9000); r_dst := (HostIp 1, 9000) |}];
+   OUnit; ORecv 1 (HostIp 0, 9000) [5]; OErr 5].
+Proof. vm_compute. reflexivity. Qed.
+
 Print Assumptions c09_reachable_wf.
 Print Assumptions c09_routes_sound.
 Print Assumptions c09_at_most_once.
 Print Assumptions c09_routes_complete.
+Print Assumptions c09_mloop_only_multicast.
 Print Assumptions c09_exact.
 Print Assumptions c09_drop_isolated.
 Print Assumptions c09_membership_at_send_time.
@@ -257,3 +285,4 @@ Print Assumptions c09_membership.
 Print Assumptions c09_consts.
 Print Assumptions c09_nonvacuous.
 Print Assumptions c09_empty_datagram.
+Print Assumptions c09_broadcast_ignores_mloop.
